@@ -105,7 +105,7 @@ func (d *ParserCustomData) tryMatchCustomDice(p *parser) (*customDiceMatch, bool
 		return nil, false
 	}
 
-	input := string(p.data[start:])
+	input := p.data[start:]
 
 	for _, item := range d.ctx.CustomDiceInfo {
 		if item == nil {
@@ -159,7 +159,7 @@ func (d *ParserCustomData) tryMatchCustomDice(p *parser) (*customDiceMatch, bool
 			continue
 		}
 
-		loc := item.re.FindStringSubmatchIndex(input)
+		loc := item.re.FindSubmatchIndex(input)
 		if loc == nil || loc[0] != 0 {
 			continue
 		}
@@ -181,7 +181,7 @@ func (d *ParserCustomData) tryMatchCustomDice(p *parser) (*customDiceMatch, bool
 				groups[i] = ""
 				continue
 			}
-			groups[i] = input[s:e]
+			groups[i] = string(input[s:e])
 		}
 
 		match := &customDiceMatch{
